@@ -246,18 +246,39 @@ def run_transient(case, ctx, prefix, want=('phi', 'V', 'I'), half=False):
     for cls, getter in (('V', sol.get_voltage), ('I', sol.get_current), ('P', sol.get_power)):
         if cls in want:
             queries += [(cls, c['id'], getter) for c in comps]
+    raw = []
     for cls, ident, getter in queries:
         r = call(getter, ident)
         if raised(r):
             ctx.violation(f'{prefix}/query-raised/{r.key}', f'{cls}({ident!r}) raised {r.text}', {})
             return None
-        t, y = r
-        y = np.asarray(y, dtype=float).reshape(-1)
+        t, y_raw = r
+        y = np.array(y_raw, dtype=float).reshape(-1)           # a copy: the caller may do with a result what it likes
         if y.shape[0] != tin.shape[0] or not np.all(np.isfinite(y)):
             ctx.violation(f'{prefix}/malformed-series', f'{cls}({ident!r}): series of length {y.shape[0]} for {tin.shape[0]} samples or non-finite values', {})
             return None
         out[cls][ident] = y
-        out['t'] = np.asarray(t, dtype=float).reshape(-1)
+        out['t'] = np.array(t, dtype=float).reshape(-1)
+        raw.append(y_raw)
+    # a result handed out is the caller's: overwriting it in place (unit conversion, an in-place residual) must not change what
+    # the solution object answers afterwards
+    scribbled = 0
+    for y_raw in raw:
+        if isinstance(y_raw, np.ndarray) and y_raw.flags.writeable and y_raw.size:
+            y_raw[...] = 12345.678
+            scribbled += 1
+    if scribbled:
+        ctx.count('result_arrays_overwritten_by_the_caller', scribbled)
+        for cls, ident, getter in queries:
+            r = call(getter, ident)
+            if raised(r):
+                ctx.violation(f'{prefix}/query-raised-after-results-were-overwritten/{r.key}', f'{cls}({ident!r}) raised {r.text}', {})
+                return None
+            y2 = np.array(r[1], dtype=float).reshape(-1)
+            sc = max(float(np.max(np.abs(out[cls][ident]))), out['sig_v'] if cls != 'I' else out['sig_i'], 1e-300)
+            if y2.shape != out[cls][ident].shape or float(np.max(np.abs(y2 - out[cls][ident]))) > 1e-9 * sc:
+                ctx.violation(f'{prefix}/result-aliases-internal-state/{cls}', f'{cls}({ident!r}) answers differently after the arrays returned by earlier queries were overwritten in place by the caller', {})
+                return None
     return out
 
 
